@@ -1,7 +1,7 @@
 ----------------------------- MODULE EqHashImpl -----------------------------
 (***************************************************************************)
 (* Layer C for property C20: every __eq__ / __hash__ / __contains__ pair of *)
-(* the anchored classes transcribed AS WRITTEN on the pinned tree:          *)
+(* the anchored classes transcribed AS WRITTEN on the current tree:          *)
 (*   odl/set/sets.py, odl/set/domain.py:IntervalProd, odl/discr/grid.py,    *)
 (*   odl/discr/partition.py, odl/space/weighting.py (+ the numpy / product  *)
 (*   space subclasses), odl/space/base_tensors.py, npy_tensors.py,          *)
@@ -16,32 +16,8 @@
 (***************************************************************************)
 EXTENDS SetSem
 
-\* numpy `u == v` followed by np.all on two 1-d float arrays: broadcasting when one of them has
-\* length 1; any other length mismatch RAISES ValueError (operands could not be broadcast)
-BroadcastAllEq(u, v) ==
-  IF Len(u) = Len(v) THEN \A i \in 1..Len(u) : u[i] = v[i]
-  ELSE IF Len(u) = 1 THEN \A i \in 1..Len(v) : v[i] = u[1]
-  ELSE IF Len(v) = 1 THEN \A i \in 1..Len(u) : u[i] = v[1]
-  ELSE FALSE
-BroadcastRaises(u, v) == Len(u) # Len(v) /\ Len(u) # 1 /\ Len(v) # 1
-\* a == b raises: IntervalProd over incompatible numbers of axes (also reached through RectPartition)
-ImplEqRaises(a, b, same) ==
-  /\ ~same
-  /\ \/ (a.cls = "IntervalProd" /\ b.cls = "IntervalProd" /\ BroadcastRaises(a.q[1], b.q[1]))
-     \/ (a.cls = "RectPartition" /\ b.cls = "RectPartition"
-         /\ BroadcastRaises(a.sub[1].q[1], b.sub[1].q[1]))
-
-\* `obj in S` where obj is itself a Set INSTANCE (this is what SetUnion.__eq__ asks):
-\* fields / Strings / Integers test isinstance(obj, Number / str) -> False; EmptySet: obj is None -> False;
-\* IntervalProd / RectGrid: np.array(obj, dtype=float) fails -> False; FiniteSet: obj in elements (numbers) -> False;
-\* CartesianProduct: len(obj) ... components are Set instances tested against number sets -> False
-RECURSIVE ImplContainsSetObject(_, _)
-ImplContainsSetObject(S, obj) ==
-  CASE S.cls = "UniversalSet"    -> TRUE
-    [] S.cls = "SetUnion"        -> \E k \in 1..Len(S.sub) : ImplContainsSetObject(S.sub[k], obj)
-    [] S.cls = "SetIntersection" -> \A k \in 1..Len(S.sub) : ImplContainsSetObject(S.sub[k], obj)
-    [] OTHER -> FALSE
-
+\* tuple membership `x in t` of an object x: any(y is x or y == x for y in t).  `same` = the tuple belongs to
+\* the very object x is taken from, at position k (so that y is x there)
 \* Weighting.__eq__ (base): isinstance(other, Weighting) and impl == impl and exponent == exponent
 WBaseEq(a, b) == IsWeighting(b) /\ WExp(a) = WExp(b)
 
@@ -55,18 +31,19 @@ ImplEq(a, b, same) ==
     [] a.cls = "CartesianProduct" ->
          /\ b.cls = a.cls /\ Len(a.sub) = Len(b.sub)
          /\ \A k \in 1..Len(a.sub) : same \/ ImplEq(a.sub[k], b.sub[k], FALSE)
-    \* type(self) == type(other) and all(set_ in other for set_ in self) and all(set_ in self for set_ in other)
+    \* type(self) == type(other) and all(set_ in other.sets for set_ in self.sets)
+    \*                            and all(set_ in self.sets for set_ in other.sets)       (commit 002ad7b)
     [] a.cls \in {"SetUnion", "SetIntersection"} ->
          /\ b.cls = a.cls
-         /\ \A k \in 1..Len(a.sub) : ImplContainsSetObject(b, a.sub[k])
-         /\ \A k \in 1..Len(b.sub) : ImplContainsSetObject(a, b.sub[k])
+         /\ \A k \in 1..Len(a.sub) : same \/ \E j \in 1..Len(b.sub) : ImplEq(b.sub[j], a.sub[k], FALSE)
+         /\ \A k \in 1..Len(b.sub) : same \/ \E j \in 1..Len(a.sub) : ImplEq(a.sub[j], b.sub[k], FALSE)
     \* ... all(el in other for el in self) ...: elements are numbers, `in` is tuple membership
     [] a.cls = "FiniteSet" ->
          /\ b.cls = a.cls
          /\ {a.q[1][i] : i \in 1..Len(a.q[1])} = {b.q[1][i] : i \in 1..Len(b.q[1])}
-    \* other is self, isinstance, np.all(min == min) and np.all(max == max)   -- NO length check
+    \* other is self, isinstance, ndim == ndim and np.all(min == min) and np.all(max == max)   (commit c1a084b)
     [] a.cls = "IntervalProd" ->
-         same \/ (b.cls = "IntervalProd" /\ BroadcastAllEq(a.q[1], b.q[1]) /\ BroadcastAllEq(a.q[2], b.q[2]))
+         same \/ (b.cls = "IntervalProd" /\ Len(a.q[1]) = Len(b.q[1]) /\ a.q = b.q)
     \* other is self, type is type, shape == shape, np.array_equal per axis
     [] a.cls = "RectGrid" -> same \/ (b.cls = "RectGrid" /\ a.q = b.q)
     [] a.cls = "RectPartition" ->
@@ -93,54 +70,45 @@ ImplEq(a, b, same) ==
                   /\ \A k \in 1..Len(a.sub) : ImplEq(a.sub[k], b.sub[k], FALSE))
 
 (* ------------------------------- hashing -------------------------------- *)
-RECURSIVE ImplHashRaises(_), ImplHashKey(_)
-\* hash((type(self), set(...)))  -- a `set` is unhashable
-ImplHashRaises(a) ==
-  \/ a.cls \in {"SetUnion", "SetIntersection", "FiniteSet"}
-  \/ (a.cls \in {"CartesianProduct", "RectPartition", "Tensor", "Discr", "PSpace"}
-      /\ \E k \in 1..Len(a.sub) : ImplHashRaises(a.sub[k]))
-
-RECURSIVE FlatKeys(_, _)
-FlatKeys(subs, k) == IF k > Len(subs) THEN <<>> ELSE ImplHashKey(subs[k]) \o <<"|">> \o FlatKeys(subs, k + 1)
-
-\* zero coordinates stored as -0.0 have other bytes than 0.0
-HasZero(a) == \E v \in 1..Len(a.q) : \E i \in 1..Len(a.q[v]) : a.q[v][i] = QZero
+(* A hash key is a record [c |-> STRING, s |-> STRING, k |-> set of <<position, key>>]: ordered components    *)
+(* carry their position, the members of a frozenset all carry position 0 (order and duplicates irrelevant). *)
+HK(c, str, subs) == [c |-> c, s |-> str, k |-> subs]
+RECURSIVE ImplHashKey(_)
+Ordered(subs)   == {<<j, ImplHashKey(subs[j])>> : j \in 1..Len(subs)}
+Unordered(subs) == {<<0, ImplHashKey(subs[j])>> : j \in 1..Len(subs)}
+\* since commit 002ad7b nothing in the universe has a raising hash (frozenset of hashable sets / numbers)
+ImplHashRaises(a) == FALSE
 
 ImplHashKey(a) ==
-  CASE a.cls \in {"EmptySet", "UniversalSet", "RealNumbers", "ComplexNumbers", "Integers"} -> <<a.cls>>
-    [] a.cls = "Strings"          -> <<a.cls, ToString(a.q)>>                       \* (type, length)
-    [] a.cls = "CartesianProduct" -> <<a.cls, "(">> \o FlatKeys(a.sub, 1) \o <<")">>   \* (type, sets)
-    [] a.cls = "IntervalProd"     -> <<a.cls, ToString(a.q)>>                       \* (type, tuple(min), tuple(max))
-    \* (type, tuple(cv.tobytes())): the BYTES, so the sign of a zero matters
-    [] a.cls = "RectGrid"         -> <<a.cls, ToString(a.q), IF HasZero(a) THEN a.s ELSE "">>
-    [] a.cls = "RectPartition"    -> <<a.cls, "(">> \o FlatKeys(a.sub, 1) \o <<")">>   \* (type, set, grid)
-    \* hash((Weighting.__hash__ = (type, impl, exponent), const))
-    [] a.cls \in ConstW  -> <<a.cls, ToString(a.q)>>
-    \* (type, array.tobytes(), exponent) resp. ((type, impl, exponent), array.tobytes())
-    [] a.cls \in ArrayW  -> <<a.cls, ToString(a.q)>>
-    [] a.cls \in CInnerW \cup CNormW \cup CDistW -> <<a.cls, ToString(a.q), a.s>>   \* (..., callable)
+  CASE a.cls \in {"EmptySet", "UniversalSet", "RealNumbers", "ComplexNumbers", "Integers"} -> HK(a.cls, "", {})
+    [] a.cls = "Strings"          -> HK(a.cls, ToString(a.q), {})                  \* (type, length)
+    [] a.cls = "CartesianProduct" -> HK(a.cls, "", Ordered(a.sub))                 \* (type, sets)
+    \* (type, frozenset(sets)) / (type, frozenset(elements))
+    [] a.cls \in {"SetUnion", "SetIntersection"} -> HK(a.cls, "", Unordered(a.sub))
+    [] a.cls = "FiniteSet"        -> HK(a.cls, "", {<<0, HK("number", ToString(a.q[1][j]), {})>> : j \in 1..Len(a.q[1])})
+    [] a.cls = "IntervalProd"     -> HK(a.cls, ToString(a.q), {})                  \* (type, tuple(min), tuple(max))
+    \* (type, tuple((cv + 0.0).tobytes())): the sign of a zero no longer matters (commit bb4c1d7)
+    [] a.cls = "RectGrid"         -> HK(a.cls, ToString(a.q), {})
+    [] a.cls = "RectPartition"    -> HK(a.cls, "", Ordered(a.sub))                 \* (type, set, grid)
+    \* Weighting.__hash__ = hash((Weighting, impl, exponent)) -- no concrete class (commit 2feff29);
+    \* const: (base, const);  array: (base, array.tobytes()) for both flavours;  custom: (base, callable)
+    [] a.cls \in ConstW  -> HK("Weighting", ToString(a.q), {})
+    [] a.cls \in ArrayW  -> HK("Weighting", ToString(a.q), {})
+    [] a.cls \in CInnerW \cup CNormW \cup CDistW -> HK("Weighting", ToString(a.q), {<<0, HK("callable", a.s, {})>>})
     \* ((type, shape, dtype), weighting)
-    [] a.cls = "Tensor" -> <<a.cls, ToString(a.q), a.s, "(">> \o FlatKeys(a.sub, 1) \o <<")">>
+    [] a.cls = "Tensor" -> HK(a.cls, ToString(a.q) \o a.s, Ordered(a.sub))
     \* ((type, shape, dtype), tspace, partition)
-    [] a.cls = "Discr"  -> <<a.cls, ToString(ShapeOf(a)), DtypeOf(a), "(">> \o FlatKeys(a.sub, 1) \o <<")">>
+    [] a.cls = "Discr"  -> HK(a.cls, ToString(ShapeOf(a)) \o DtypeOf(a), Ordered(a.sub))
     \* (type, spaces, weighting)
-    [] a.cls = "PSpace" -> <<a.cls, "(">> \o FlatKeys(a.sub, 1) \o <<")">>
-    [] OTHER -> <<a.cls, "?">>
+    [] a.cls = "PSpace" -> HK(a.cls, "", Ordered(a.sub))
+    [] OTHER -> HK(a.cls, "?", {})
 
 \* x in S for an element x of space xs:  getattr(other, 'space', None) == self
 ImplSpaceContains(S, xs, same) == ImplEq(xs, S, same)
 
-(* ---------------- cells where the pinned code leaves the laws / layer A -- *)
+(* No cell is left where the model of the current code leaves the laws or layer A: the former cells        *)
+(* K1 (SetUnion / SetIntersection ==), K2 (IntervalProd broadcasting), K3 (class in the weighting hash) and *)
+(* K4 (-0.0 bytes in the RectGrid hash) were repaired in /repo (commits 002ad7b, c1a084b, 2feff29, bb4c1d7). *)
 RECURSIVE HasCls(_, _)
 HasCls(a, C) == a.cls \in C \/ \E k \in 1..Len(a.sub) : HasCls(a.sub[k], C)
-\* K1  SetUnion / SetIntersection: `set_ in other` tests MEMBERSHIP of the subset object, never true
-HasUnorderedSet(a) == HasCls(a, UnorderedCls)
-\* K2  IntervalProd: comparison broadcasts over different numbers of axes
-HasIntv(a) == HasCls(a, {"IntervalProd"})
-\* K3  weightings: == ignores the class (tensor-space vs product-space flavour), the hash does not
-HasWeighting(a) == HasCls(a, WeightingClasses)
-\* K4  RectGrid: == compares numbers, the hash bytes (0.0 vs -0.0)
-RECURSIVE HasNegZeroGrid(_)
-HasNegZeroGrid(a) == (a.cls = "RectGrid" /\ a.s = "negzero" /\ HasZero(a))
-                     \/ \E k \in 1..Len(a.sub) : HasNegZeroGrid(a.sub[k])
 =============================================================================
